@@ -488,6 +488,11 @@ func dottedSchemaCase(ctx *core.Ctx, idx int, res *core.Result) {
 	r := ctx.Rand("c04-schema", idx)
 	g := gen.NewG(r)
 	c := g.SchemaChange(dottedSchemas[idx%len(dottedSchemas)])
+	if idx%3 == 1 {
+		// several elisions whose sections share metavariables, on lists with dead-end candidates and on lists that are
+		// nothing but the sections (every run empty)
+		c = g.SharedSectionsChange()
+	}
 	var srcs, extra []string
 	for f := 0; f < 4; f++ {
 		plants, kinds := g.InstancePlants(c, 1+r.Intn(4), r.Intn(2))
